@@ -61,6 +61,7 @@ func runOracles(res *Result, prop string, c *Case) {
 		oracleC02(res, c)
 	case "C10":
 		oracleC10(res, c)
+		oracleAliases(res, c, "C10")
 	case "C13":
 		oracleC13(res, c)
 		if c.Err != nil {
@@ -74,13 +75,16 @@ func runOracles(res *Result, prop string, c *Case) {
 		oracleC19(res, c)
 	case "C11":
 		oracleC11(res, c)
+		oracleDomainAPI(res, c, "C11")
 	case "C07":
 		oracleC07(res, c)
+		oracleAliases(res, c, "C07")
 	case "C04":
 		oracleC04(res, c)
 	case "C14":
 		oracleC14(res, c)
 		oracleC14Methods(res, c)
+		oracleHasInterface(res, c, "C14")
 	case "C03":
 		oracleC03(res, c)
 	case "C12":
@@ -91,6 +95,7 @@ func runOracles(res *Result, prop string, c *Case) {
 		oracleC09(res, c, len(c.ID))
 	case "C15":
 		oracleC15(res, c)
+		oracleReportError(res, c, "C15")
 	}
 }
 
